@@ -634,6 +634,68 @@ impl<'tcx> Cx<'tcx> {
         Some(o)
     }
 
+    fn alloc_of(&self, id: rustc_middle::mir::interpret::AllocId) -> Option<rustc_middle::mir::interpret::ConstAllocation<'tcx>> {
+        match self.tcx.global_alloc(id) {
+            rustc_middle::mir::interpret::GlobalAlloc::Memory(a) => Some(a),
+            rustc_middle::mir::interpret::GlobalAlloc::Static(did) => self.tcx.eval_static_initializer(did).ok(),
+            _ => None,
+        }
+    }
+
+    /// Decode a constant of type `&[&str; N]` (or `[&str; N]`) into its strings.
+    fn decode_str_table(&self, v: mir::ConstValue) -> Option<Vec<String>> {
+        use rustc_middle::mir::interpret::Scalar;
+        let mut aid = match v {
+            mir::ConstValue::Scalar(Scalar::Ptr(p, _)) => p.provenance.alloc_id(),
+            mir::ConstValue::Indirect { alloc_id, .. } => alloc_id,
+            _ => return None,
+        };
+        // follow one level of indirection if the allocation is a single thin pointer
+        for _ in 0..2 {
+            let a = self.alloc_of(aid)?;
+            let inner = a.inner();
+            if inner.len() == 8 {
+                let ptrs = inner.provenance().ptrs();
+                if let Some((_, prov)) = ptrs.iter().next() {
+                    aid = prov.alloc_id();
+                    continue;
+                }
+            }
+            break;
+        }
+        let a = self.alloc_of(aid)?;
+        let inner = a.inner();
+        let n = inner.len();
+        if n % 16 != 0 {
+            return None;
+        }
+        let raw = inner.inspect_with_uninit_and_ptr_outside_interpreter(0..n);
+        let mut out = Vec::new();
+        for (off, prov) in inner.provenance().ptrs().iter() {
+            let o = off.bytes() as usize;
+            if o % 16 != 0 || o + 16 > n {
+                return None;
+            }
+            let mut lenb = [0u8; 8];
+            lenb.copy_from_slice(&raw[o + 8..o + 16]);
+            let len = u64::from_le_bytes(lenb) as usize;
+            let mut offb = [0u8; 8];
+            offb.copy_from_slice(&raw[o..o + 8]);
+            let start = u64::from_le_bytes(offb) as usize;
+            let t = self.alloc_of(prov.alloc_id())?;
+            let ti = t.inner();
+            if start + len > ti.len() {
+                return None;
+            }
+            let bytes = ti.inspect_with_uninit_and_ptr_outside_interpreter(start..start + len);
+            out.push(String::from_utf8_lossy(bytes).to_string());
+        }
+        if out.len() * 16 != n {
+            return None;
+        }
+        Some(out)
+    }
+
     fn adts_and_consts(&self) -> (Vec<String>, Vec<String>, Vec<String>) {
         let tcx = self.tcx;
         let mut adts = Vec::new();
@@ -702,11 +764,20 @@ impl<'tcx> Cx<'tcx> {
                             val = Some(format!("{}", Const::Val(v, ty)));
                         }
                     }
+                    // tables of string literals (`&[&str; N]`): decode the strings
+                    let mut strs: Option<Vec<String>> = None;
+                    let tys = self.ty_str(ty);
+                    if generics.count() == 0 && generics.parent_count == 0 && tys.contains("[&'static str;") {
+                        if let Ok(v) = tcx.const_eval_poly(def_id) {
+                            strs = self.decode_str_table(v);
+                        }
+                    }
                     consts.push(format!(
-                        "{{\"path\":{},\"ty\":{},\"value\":{},\"span\":{}}}",
+                        "{{\"path\":{},\"ty\":{},\"value\":{},\"strs\":{},\"span\":{}}}",
                         js(&self.def_path(def_id)),
-                        js(&self.ty_str(ty)),
+                        js(&tys),
                         jopt(val.map(|v| js(&v))),
+                        jopt(strs.map(|v| jlist(&v.iter().map(|x| js(x)).collect::<Vec<_>>()))),
                         js(&self.span_str(tcx.def_span(def_id)))
                     ));
                 }
